@@ -20,6 +20,22 @@ from .core import REPO, AnalysisError
 
 def _apply(entry: dict, scratch: str) -> Tuple[bool, str]:
     touched = set()
+    if entry.get("patch"):
+        # a seeded change kept as a unified diff under /verif/seeded: apply it to the scratch copy
+        import subprocess
+
+        patch = os.path.join(os.path.dirname(os.path.dirname(os.path.abspath(__file__))), entry["patch"])
+        if not os.path.exists(patch):
+            return False, f"{entry['patch']} missing"
+        r = subprocess.run(["git", "apply", "--unsafe-paths", "--directory", scratch, patch], cwd=scratch, capture_output=True, text=True)
+        if r.returncode != 0:
+            r = subprocess.run(["patch", "-p1", "-s", "--no-backup-if-mismatch", "-i", patch], cwd=scratch, capture_output=True, text=True)
+            if r.returncode != 0:
+                return False, "patch no longer applies to the current tree: " + (r.stderr or r.stdout).strip().splitlines()[-1][:120]
+        for root, _d, files in os.walk(os.path.join(scratch, "src")):
+            for fn in files:
+                if fn.endswith(".py"):
+                    touched.add(os.path.join(root, fn))
     for file, old, new, count in entry["edits"]:
         path = os.path.join(scratch, file)
         if not os.path.exists(path):
